@@ -2364,3 +2364,7 @@ mod tests {
         assert_eq!(result.value(3).len(), 1);
     }
 }
+
+#[cfg(kani)]
+#[path = "/verif/kani/arrow-select/interleave.rs"]
+mod verif_kani;
